@@ -89,7 +89,9 @@ class C03(Prop):
     rule = ("one random acquisition (1..6 samples, 2..11 scans, 1..4 elements with spaces/brackets/32-character labels, any "
             "subset of the channels X/Y/Time/Analog/Counter, numbers with signs and exponents) written in both layouts with "
             "',' or ';' and '.' or ',' decimals, BOM on/off, CRLF/LF; explicit readers for every channel, params, sniffing, "
-            "and load (use_analog on/off); plus non-export text files for the sniffer; non-trivial = every export case")
+            "and load (use_analog on/off); 14% of the cases: exports whose first 13..72 lines carry no decimal mark (integral values "
+            "written as 0/12/-3/1e5 for the first records of the columns layout and/or the first samples of the rows layout), "
+            "fractional values only later; plus non-export text files for the sniffer; non-trivial = every export case")
     trusted = [
         "float()/int()/str() and np.genfromtxt field conversion: a field parses to float(token) (NaN when that fails); "
         "fixed-width unicode storage truncates; np.unique(return_index)+argsort = order of first appearance; "
@@ -105,8 +107,11 @@ class C03(Prop):
     ]
 
     def generate(self, rng, tier):
-        if rng.random() < 0.1:
+        r = rng.random()
+        if r < 0.1:
             return gen_thermo.generate_other(rng)
+        if r < 0.24:    # integral values written without a decimal mark for the whole head of the file
+            return gen_thermo.generate_late(rng, tier)
         return gen_thermo.generate(rng, tier)
 
     def targeted(self, tier):
@@ -126,6 +131,15 @@ class C03(Prop):
         yield {"kind": "readers", "use_analog": False, "delimiter": ",", "decimal": ".", "bom": False, "eol": "\r\n",
                "explicit_delimiter": False,
                "acq": {"samples": ["1"], "nscans": 10001, "elements": ["31P"], "channels": ["Counter"], "tokens": toks}}
+        # no decimal mark in the first 16/17/33/65 lines (zero counts written as `0`), fractional values only later:
+        # the Counter-only export of a low-abundance first isotope, each layout in turn, every delimiter/decimal pair
+        for combo in ((";", ","), (";", "."), (",", ".")):
+            for target in ("cols", "rows", "both"):
+                for lead in (16, 17, 33, 65) if combo == (";", ",") else (17,):
+                    for kind, co in (("load", True), ("load", False), ("readers", True)):
+                        rng = random.Random(f"C03-late-{combo}-{target}-{lead}-{kind}-{co}")
+                        yield gen_thermo.generate_late(rng, tier, target=target, lead=lead, combo=combo, kind=kind,
+                                                       counter_only=co, use_analog=False if co else None)
         for lines in ([], [""], ["A,B"], ["1,2", "3,4"], ["x", "MainRuns,0,A,Counter,1,"], ["a", "b", "c"],
                       ["a", "MainRuns", "c", "MainRuns"]):
             for final in (True, False):
@@ -170,6 +184,14 @@ class C03(Prop):
         feats = {f"n{n}" if n <= 2 else "n>=3", f"m{m}" if m <= 2 else "m>=3", f"k{len(a['elements'])}" if len(a["elements"]) <= 2 else "k>=3",
                  f"delim{delim}dec{case['decimal']}", "bom" if case["bom"] else "no-bom", "crlf" if case["eol"] == "\r\n" else "lf",
                  "explicit-delimiter" if dl else "auto-delimiter", "channels:" + "+".join(c[0] for c in a["channels"]), case["kind"]}
+        # lines of each layout before the first value written with the decimal mark (when there is one at all)
+        for lay, t, hdr, lab in (("rows", trows, 4, 2), ("cols", tcols, 2, 4)):
+            first = next((j for j, r in enumerate(t) if j >= hdr and any(case["decimal"] in f for f in r[lab:])), None)
+            if first is not None and first >= 16:
+                feats.add(f"{lay}:no-decimal-mark-in-first-{max(T for T in (16, 32, 64) if first >= T)}-lines")
+                feats.add(f"unmarked-leading-run:delim{delim}dec{case['decimal']}:{case['kind']}")
+            elif first is None:
+                feats.add("no-decimal-mark-at-all")
         bychan = {c["channel"]: c for c in rep["channels"]}
         with warnings.catch_warnings():
             warnings.simplefilter("ignore")
@@ -254,6 +276,11 @@ class C03(Prop):
         a = case["acq"]
         n, m, k, C = len(a["samples"]), a["nscans"], len(a["elements"]), len(a["channels"])
         T = a["tokens"]
+        if n > 8:      # long unmarked runs: halve from either end before going one by one
+            yield {**case, "acq": {**a, "samples": a["samples"][:n // 2], "tokens": T[:n // 2]}}
+            yield {**case, "acq": {**a, "samples": a["samples"][n // 2:], "tokens": T[n // 2:]}}
+        if m > 8:
+            yield {**case, "acq": {**a, "nscans": m // 2, "tokens": [ps[:m // 2] for ps in T]}}
         if n > 1:
             yield {**case, "acq": {**a, "samples": a["samples"][:-1], "tokens": T[:-1]}}
             yield {**case, "acq": {**a, "samples": a["samples"][1:], "tokens": T[1:]}}
